@@ -44,7 +44,23 @@ def split_model(ml):
     if " spec " not in ml:
         return ml, None
     a, b = ml.rsplit(" spec ", 1)
-    return a, b.split()
+    return a, b.split()[:4]
+
+
+def spec_graph(ml):
+    """the graph of the independent specification, printed by the driver after the verdicts: ... sg <n> (<v> <k> <t>*k)*n"""
+    if " sg " not in ml:
+        return None
+    f = ml.rsplit(" sg ", 1)[1].split(" ")
+    try:
+        n, i, g = int(f[0]), 1, {}
+        for _ in range(n):
+            name, k = f[i], int(f[i + 1])
+            g[name] = f[i + 2:i + 2 + k]
+            i += 2 + k
+        return g
+    except (IndexError, ValueError):
+        return None
 
 
 def norm_noleader(line):
@@ -90,7 +106,7 @@ def parse_midres(il):
         return None
 
 
-def uncovered_cycle(il, graph_from=None):
+def uncovered_cycle(il, graph_from=None, graph=None):
     """For a grammar accepted with left-recursion support (verdict ok1): is there a cycle of the first graph that passes
     through NO leader? Such a cycle is re-entered at the same offset without bound by the generated parser
     (theorem C08_cycle_without_leader_has_no_ranking; with every cycle covered: C08_left_recursive_parse_terminates).
@@ -100,7 +116,9 @@ def uncovered_cycle(il, graph_from=None):
     r = parse_midres(il)
     if r is None or r[0] != "ok1":
         return None
-    _, rules, graph = r
+    _, rules, g0 = r
+    if graph is None:
+        graph = g0
     if graph_from is not None:
         rm = parse_midres(graph_from)
         if rm is not None:
